@@ -1324,6 +1324,86 @@ def sweep_scenarios(rng, scens, per=1, cap=None):
     return out
 
 
+def fam_scaling(rng, tier):
+    """C15 (growth, not constants): the same input SHAPE at size n (parser 0) and k·n (parser 1); the heap bytes requested by the
+    last call may grow by at most 1.5·k (+64 KiB).  Shapes stay outside the two known C15 findings (no packet chains, no
+    zero-length fields).  `k = 1` cases: the same small message against a cache of size n and of size 4n must cost the same."""
+    out = []
+    K = 4
+    sizes = [60, 150] if tier == "quick" else [60, 150, 400, 1000]
+
+    def v9m(sets):
+        return {"v9": {"m": {"count": len(sets), "sysUpTime": 1, "unixSecs": 1, "seq": 1, "sourceId": 1, "sets": sets}}}
+
+    def ipm(sets):
+        return {"ipfix": {"m": {"exportTime": 1, "seq": 1, "odid": 1, "sets": sets}}}
+
+    def v9t(i, nf=2):
+        return {"id": 256 + i, "fieldCount": nf, "fields": [{"typ": 1 + (j % 20), "len": 4} for j in range(nf)]}
+
+    def v9o(i):
+        return {"id": 256 + i, "scopeLen": 4, "optLen": 8, "scope": [{"typ": 1, "len": 4}], "opts": [{"typ": 1, "len": 4}, {"typ": 2, "len": 4}]}
+
+    def ipt(i, nf=2):
+        return {"id": 256 + i, "fields": [{"typ": 1 + (j % 20), "len": 4, "ent": None} for j in range(nf)]}
+
+    def ipo(i):
+        t = ipt(i, 3)
+        t["scopeCount"] = 1
+        return t
+
+    def iprec(nf):
+        return [{"content": "00000001", "form": "fixed"}] * nf
+
+    shapes = {
+        "v9-templates-per-flowset": lambda n: ([], v9m([{"templates": {"ts": [v9t(i) for i in range(n)], "pad": ""}}])),
+        "v9-opt-templates-per-flowset": lambda n: ([], v9m([{"optTemplates": {"ts": [v9o(i) for i in range(n)], "pad": ""}}])),
+        "v9-template-flowsets": lambda n: ([], v9m([{"templates": {"ts": [v9t(i)], "pad": ""}} for i in range(n)])),
+        "v9-redefinitions": lambda n: ([v9m([{"templates": {"ts": [v9t(i) for i in range(n)], "pad": ""}}, {"optTemplates": {"ts": [v9o(i + n) for i in range(n)], "pad": ""}}])],
+                                       v9m([{"optTemplates": {"ts": [v9o(i) for i in range(n)], "pad": ""}}, {"templates": {"ts": [v9t(i + n) for i in range(n)], "pad": ""}}])),
+        "ipfix-template-sets": lambda n: ([], ipm([{"templates": {"ts": [ipt(i)], "pad": ""}} for i in range(n)])),
+        "ipfix-opt-template-sets": lambda n: ([], ipm([{"optTemplates": {"ts": [ipo(i)], "pad": ""}} for i in range(n)])),
+        "ipfix-redefinitions": lambda n: ([ipm([{"templates": {"ts": [ipt(i)], "pad": ""}} for i in range(n)])], ipm([{"optTemplates": {"ts": [ipo(i)], "pad": ""}} for i in range(n)])),
+        "v9-records": lambda n: ([v9m([{"templates": {"ts": [v9t(0, 3)], "pad": ""}}])], v9m([{"data": {"id": 256, "recs": [["00000001"] * 3] * n, "pad": ""}}])),
+        "ipfix-records": lambda n: ([ipm([{"templates": {"ts": [ipt(0, 3)], "pad": ""}}])], ipm([{"data": {"id": 256, "recs": [iprec(3)] * n, "pad": ""}}])),
+        "ipfix-opt-records": lambda n: ([ipm([{"optTemplates": {"ts": [ipo(0)], "pad": ""}}])], ipm([{"data": {"id": 256, "recs": [iprec(3)] * n, "pad": ""}}])),
+        "v9-data-flowsets": lambda n: ([v9m([{"templates": {"ts": [v9t(0, 3)], "pad": ""}}])], v9m([{"data": {"id": 256, "recs": [["00000001"] * 3], "pad": ""}}] * n)),
+        "ipfix-data-sets": lambda n: ([ipm([{"templates": {"ts": [ipt(0, 3)], "pad": ""}}])], ipm([{"data": {"id": 256, "recs": [iprec(3)], "pad": ""}}] * n)),
+        "v9-fields-per-template": lambda n: ([v9m([{"templates": {"ts": [v9t(0, n)], "pad": ""}}])], v9m([{"data": {"id": 256, "recs": [["00000001"] * n] * 3, "pad": ""}}])),
+        "ipfix-fields-per-template": lambda n: ([ipm([{"templates": {"ts": [ipt(0, n)], "pad": ""}}])], ipm([{"data": {"id": 256, "recs": [iprec(n)] * 3, "pad": ""}}])),
+        "v9-wide-template-definition": lambda n: ([], v9m([{"templates": {"ts": [v9t(0, n)], "pad": ""}}])),
+        "ipfix-wide-template-definition": lambda n: ([], ipm([{"templates": {"ts": [ipt(0, n)], "pad": ""}}])),
+        "v5-records": lambda n: ([], msg_v5(rng, n)),
+        "v7-records": lambda n: ([], msg_v7(rng, n)),
+    }
+    for name, mk in shapes.items():
+        for n in sizes:
+            ops = [op_new(0), op_new(1)]
+            for pid, m in ((0, n), (1, K * n)):
+                setup, last = mk(m)
+                for s in setup:
+                    o = op_parse(pid, msgs=[s], want=[]); o["nospec"] = True; ops.append(o)
+                o = op_parse(pid, msgs=[last], want=["alloc"]); o["nospec"] = True; ops.append(o)
+            ops.append({"op": "assert_scale", "a": 0, "b": 1, "k": K})
+            out.append(("scale-%s-%d" % (name, n), ops))
+    # k = 1: identical small messages against caches of very different sizes
+    small9 = v9m([{"data": {"id": 256, "recs": [["00000001", "00000002"]], "pad": ""}}, {"data": {"id": 256 + 5000, "recs": [["00000001", "00000002", "00000003"]], "pad": ""}}])
+    small10 = ipm([{"data": {"id": 256, "recs": [iprec(2)], "pad": ""}}, {"data": {"id": 256 + 5000, "recs": [iprec(3)], "pad": ""}}])
+    for n in ([300] if tier == "quick" else [300, 800]):
+        ops = [op_new(0), op_new(1)]
+        for pid, m in ((0, n), (1, 8 * n)):
+            for base in range(0, m, 100):
+                ids = range(base, min(base + 100, m))
+                o = op_parse(pid, msgs=[v9m([{"templates": {"ts": [v9t(i) for i in ids], "pad": ""}}, {"optTemplates": {"ts": [v9o(5000 + i) for i in ids], "pad": ""}}]),
+                                        ipm([{"templates": {"ts": [ipt(i)], "pad": ""}} for i in ids] + [{"optTemplates": {"ts": [ipo(5000 + i)], "pad": ""}} for i in ids])], want=[])
+                o["nospec"] = True
+                ops.append(o)
+            o = op_parse(pid, msgs=[small9, small10], want=["alloc"]); o["nospec"] = True; ops.append(o)
+        ops.append({"op": "assert_scale", "a": 0, "b": 1, "k": 1})
+        out.append(("scale-cache-%d" % n, ops))
+    return out
+
+
 def mutate_hex(rng, h):
     b = bytearray(bytes.fromhex(h))
     if not b:
